@@ -219,6 +219,18 @@ fn emit_tail(a: i64, bad: usize) -> Vec<MOp> {
             v.extend([PUSH(0), PUSH(0), PUSH(1), DATA, PUSH(3), STO]); // solution tag -> mem[3]
             v.extend([PUSH(1), PUSH(4), STO]);
         }
+        // canonical list of two mutations: [2, 2,a,tag,1,h, 2,a2,tag,1,7] where a2 == a (same key twice) or a+1
+        4 | 5 => {
+            let a2 = if bad == 4 { a } else { a + 1 };
+            v.extend([PUSH(11), ALOC, POP]);
+            v.extend([PUSH(5), STO]); // h -> mem[5]
+            for (i, w) in [(0, 2i64), (1, 2), (2, a), (4, 1), (6, 2), (7, a2), (9, 1), (10, 7)] {
+                v.extend([PUSH(w), PUSH(i), STO]);
+            }
+            for at in [3i64, 8] {
+                v.extend([PUSH(0), PUSH(0), PUSH(1), DATA, PUSH(at), STO]);
+            }
+        }
         // unambiguously invalid: negative key length
         1 => {
             v.extend([POP, PUSH(3), ALOC, POP, PUSH(1), PUSH(0), STO, PUSH(-1), PUSH(1), STO]);
@@ -321,7 +333,9 @@ fn build_predicate(ch: &mut Chooser, cfg: &GraphCfg, programs: &mut Vec<Vec<MOp>
                     p.extend(fold_stack(tag));
                     let a = if cfg.calm { 1000 + *emit_slots as i64 } else { key_universe_first()[*emit_slots % 2] };
                     *emit_slots += 1;
-                    p.extend(emit_tail(a, 0));
+                    // mostly one mutation; sometimes two (distinct keys, or the same key twice)
+                    let shape = if cfg.calm { 0 } else { [0usize, 0, 0, 0, 0, 0, 5, 4][ch.pick(8)] };
+                    p.extend(emit_tail(a, shape));
                 }
                 // bad leaf: [], [1,1], [3]
                 3 => match ch.pick(3) {
